@@ -21,7 +21,8 @@ def run(rep, tier, seed, replay):
     found = False
 
     def crashed(l):
-        return l.startswith("PANIC") or l.startswith("NOREPLY") or l.startswith("TIMEOUT") or l.endswith("load:PANIC")
+        return (l.startswith("PANIC") or l.startswith("NOREPLY") or l.startswith("TIMEOUT") or l.endswith("load:PANIC")
+                or " PANIC " in " " + l.split(" | ")[0] + " ")   # sequences of replies (compression path): a panic anywhere
 
     # recursion depth: inputs built to nest / chain as deeply as possible, decoded in a child process whose
     # goroutine stacks are capped at 48 MB; a fatal stack overflow kills the child
